@@ -732,7 +732,10 @@ func VerifC30Read() {
 // reported type from the first row only; no row's value may depend on another row.
 func VerifC30ReadRows() {
 	tier := verifTier()
-	nrows := 2 + tier*verifChoice("rows", 2)
+	nrows := 2
+	if tier > 0 {
+		nrows += verifChoice("rows", 2)
+	}
 	decl, lower := vcChooseDecl("decl", []int{4}, vcDeclConcrete[:3])
 	t := &vcTable{cols: []string{"x"}, decl: []string{decl}}
 	for r := 0; r < nrows; r++ {
@@ -745,8 +748,11 @@ func VerifC30ReadRows() {
 // and column names), one (thorough: up to two) rows.
 func VerifC30ReadWide() {
 	tier := verifTier()
-	ncols := 2 + tier*verifChoice("cols", 2)
-	nrows := 1 + tier*verifChoice("rows", 2)
+	ncols, nrows := 2, 1
+	if tier > 0 {
+		ncols += verifChoice("cols", 2)
+		nrows += verifChoice("rows", 2)
+	}
 	t := &vcTable{}
 	var lower []string
 	for c := 0; c < ncols; c++ {
@@ -810,7 +816,13 @@ var vcNumFloats = []float64{1.5, -0.25, 1e3, 3.0, 9223372036854775808, -92233720
 
 const vcNumOutOfRange = 8 // index of 1E400
 
-var vcConcreteStrings = []string{"é", "日本語", "x'e9'", " x'00' ", " x'00'", "X'53514C697465'", "x'é'"}
+// concrete integer literals (the extremes, 2^53+1 which no float64 holds, zero)
+var vcIntTexts = []string{"9223372036854775807", "-9223372036854775808", "9007199254740993", "0", "-1"}
+var vcIntVals = []int64{9223372036854775807, -9223372036854775808, 9007199254740993, 0, -1}
+
+// concrete strings: non-ASCII text, literals, padded literals (ASCII and Unicode white space),
+// a literal with a non-hex body, text with Unicode white space at both ends
+var vcConcreteStrings = []string{"\u00e9", "x'e9'", " a ", "\u65e5\u672c\u8a9e", " x'00' ", "\u00a0x'00'", "X'53514C697465'", "x'\u00e9'", "\u3000h\u00e9llo\u0085"}
 
 // vcChooseValue picks an abstract JSON value. mode 0: a small selection per kind (requests with
 // several values); mode 1: the quick variety; mode 2: the thorough variety.
@@ -819,12 +831,16 @@ func vcChooseValue(name string, mode int) jvVal {
 	case jkBool:
 		return jvVal{kind: jkBool, b: verifBool(name + ".b")}
 	case jkInt:
+		// symbolic (placeholder literal, see vcNumber) or one of the concrete literals (real strconv)
+		if k := verifChoice(name+".int", 1+[]int{0, 2, len(vcIntTexts)}[mode]); k > 0 {
+			return jvVal{kind: jkInt, i: vcIntVals[k-1], numText: vcIntTexts[k-1]}
+		}
 		return jvVal{kind: jkInt, i: verifI64(name + ".i")}
 	case jkNum:
 		nn := []int{1, len(vcNumTexts), len(vcNumTexts)}[mode]
 		return jvVal{kind: jkNum, numText: vcNumTexts[verifChoice(name+".num", nn)]}
 	case jkString:
-		lens := [][]int{{3}, {0, 3, 5}, {0, 1, 2, 3, 4, 5, 6, 7, 9}}[mode]
+		lens := [][]int{{}, {0, 3, 5}, {0, 1, 2, 3, 4, 5, 6, 7, 9}}[mode]
 		nc := []int{3, len(vcConcreteStrings), len(vcConcreteStrings)}[mode]
 		k := verifChoice(name+".str", len(lens)+nc)
 		if k >= len(lens) {
@@ -863,6 +879,9 @@ func vcGo(v jvVal) any {
 	case jkBool:
 		return v.b
 	case jkInt:
+		if v.numText != "" {
+			return json.Number(v.numText)
+		}
 		return vcNumber(v.i)
 	case jkNum:
 		return json.Number(v.numText)
